@@ -1078,9 +1078,12 @@ bool evaluate_impl(const void *context, const GraphView &graph,
   // next evaluate at the same time continues from there WITHOUT redoing the
   // per-cycle setup (next_scheduled accumulation / push-source pass). A
   // completed cycle resets the cursor to 0. (A cursor of 0 or the initial
-  // invalid sentinel means "fresh".)
+  // invalid sentinel means "fresh".) A cycle that FAILED also leaves the cursor
+  // on the failing node (failed_node() reads it), but that cycle is abandoned,
+  // never resumed: the next evaluate starts a fresh scan.
   const bool resuming =
-      state.evaluation_cursor != 0 && state.evaluation_cursor != invalid_cursor;
+      !state.evaluation_failed && state.evaluation_cursor != 0 &&
+      state.evaluation_cursor != invalid_cursor;
 
   state.evaluation_time = evaluation_time;
   state.evaluation_failed = false;
